@@ -122,10 +122,14 @@ func jtBaseline(rt *ast.Route) string {
 }
 
 func jtTypes(name string) map[string]string {
-	if name == "T1" {
+	switch name {
+	case "T1":
 		return map[string]string{"id": "string"}
+	case "T2":
+		return map[string]string{"id": "int", "k": "int"}
 	}
-	return map[string]string{"id": "int", "k": "int"}
+	// T3..: further combinations, one extra typed name each
+	return map[string]string{"id": "string", "extra_" + name: "int"}
 }
 
 func TestVerifJitReplay(t *testing.T) {
